@@ -77,6 +77,7 @@ Section W.
                end in
         match s with
         | TNothing => Rt
+        | TCap _ _ _ => Rerr              (* not a Python object *)
         | TBuiltin b _ =>
             if is_bottom_builtin b then Rt
             else if py_eqb t s then Rt
